@@ -81,6 +81,8 @@ struct Excl {
     no_restart: bool,
     /// open finding: ORDER BY + LIMIT + OFFSET over several segments / shards returns a wrong slice
     ordered_offset: bool,
+    /// open finding compaction.partial_drain (C05)
+    no_multi_type_compaction: bool,
 }
 
 const SORT_FIELDS: [&str; 7] = ["x", "f", "s", "t", "o", "u", "timestamp"];
@@ -97,7 +99,10 @@ fn case_strategy(tier: Tier, ex: Excl, wx: crate::props::c02::WhereExcl) -> Boxe
             let td = td.clone();
             let ev = (0..n_ctx, -3i64..5, prop::sample::select(vec![-2.5f64, -0.5, 0.0, 0.25, 1.5, 2.0, 10.5]), prop::sample::select(vec!["a", "b", "B", "ab", "zz", "é"]), 0i64..6, prop::option::weighted(0.7, -2i64..4), prop::sample::select(vec![0u64, 1, 2, 3, 4_000_000_000, i64::MAX as u64]))
                 .prop_map(|(ctx, x, f, s, t, o, u)| Ev { ty: 0, ctx, vals: vec![json!(x), json!(f), json!(s), json!(1_700_000_000i64 + t * 1800), o.map(|v| json!(v)).unwrap_or(Value::Null), json!(u)] });
-            let op = prop_oneof![30 => ev.prop_map(Op::Store), 3 => (0u32..5).prop_map(Op::Clock), 2 => Just(Op::Flush), 2 => Just(Op::Barrier), 2 => (1u8..=2).prop_map(Op::Compact)];
+            // (four cases in ten; the others keep one event type and their compaction rounds)
+            let with_noise = cfg.shard_count >= 2 && n_ctx != 3;
+            let noise = (0..n_ctx, 0i64..4).prop_map(move |(ctx, v)| if with_noise { Op::Store(Ev { ty: 1, ctx, vals: vec![json!(v)] }) } else { Op::Barrier });
+            let op = prop_oneof![30 => ev.prop_map(Op::Store), 4 => noise, 3 => (0u32..5).prop_map(Op::Clock), 2 => Just(Op::Flush), 2 => Just(Op::Barrier), 2 => (1u8..=2).prop_map(Op::Compact)];
             let ops = prop::collection::vec(op, 8..=tier.pick(70, 90));
             let tail = prop::collection::vec(prop_oneof![3 => Just(Op::Flush), 2 => (1u8..=2).prop_map(Op::Compact), 2 => Just(if ex.no_restart { Op::Barrier } else { Op::Restart })], 1..=2);
             let fields: Vec<&'static str> = SORT_FIELDS.iter().enumerate().filter(|(i, _)| !ex.order_by[*i]).map(|(_, f)| *f).collect();
@@ -131,7 +136,17 @@ fn case_strategy(tier: Tier, ex: Excl, wx: crate::props::c02::WhereExcl) -> Boxe
             });
             (Just(cfg), Just(td), Just(n_ctx), ops, tail, prop::collection::vec(q, 6..=tier.pick(14, 24)))
         })
-        .prop_map(move |(cfg, td, n_ctx, ops, tail, mut queries)| {
+        .prop_map(move |(cfg, td, n_ctx, mut ops, mut tail, mut queries)| {
+            // open finding (C05): compaction over segments shared by several event types leaves a type readable from input
+            // and output; selections de-duplicate by id, but LIMIT is applied before that. While it is open a history with
+            // the second event type does not compact.
+            if ex.no_multi_type_compaction && ops.iter().any(|o| matches!(o, Op::Store(e) if e.ty == 1)) {
+                for o in ops.iter_mut().chain(tail.iter_mut()) {
+                    if matches!(o, Op::Compact(_)) {
+                        *o = Op::Barrier;
+                    }
+                }
+            }
             for q in queries.iter_mut() {
                 if q.wh.as_ref().map(|w| wx.excluded(&td, w)).unwrap_or(false) {
                     q.wh = None;
@@ -162,8 +177,9 @@ fn cmp_keys(a: &Value, b: &Value) -> Option<Ordering> {
 static EXCL: Mutex<Option<Excl>> = Mutex::new(None);
 
 fn run_case(c: &Case, rep: &mut CaseReport) -> Verdict {
-    let ex = EXCL.lock().unwrap().unwrap_or(Excl { order_by: [false; 7], offset: false, limit_with_order: false, mixed_tiers: false, where_not_returned: false, no_restart: false, ordered_offset: false });
-    let types = vec![c.td.clone()];
+    let ex = EXCL.lock().unwrap().unwrap_or(Excl { order_by: [false; 7], offset: false, limit_with_order: false, mixed_tiers: false, where_not_returned: false, no_restart: false, ordered_offset: false, no_multi_type_compaction: false });
+    // a second event type is stored alongside (never queried): segments then exist that hold none of the queried type's rows
+    let types = vec![c.td.clone(), TypeDef { name: "nz".into(), fields: vec![FieldDef { name: "v".into(), ty: FT::Int, opt: false, alias: "int".into() }] }];
     let mut w = match World::start("c10", &c.cfg, &types, true) {
         Ok(w) => w,
         Err(e) => {
@@ -231,7 +247,7 @@ fn run_case(c: &Case, rep: &mut CaseReport) -> Verdict {
                 .model
                 .events
                 .iter()
-                .filter(|e| q.ctx.map(|cx| e.ctx == ctx_name(cx)).unwrap_or(true) && q.wh.as_ref().map(|wh| wh.eval(&c.td, &e.vals, e.k) == Tri::True).unwrap_or(true))
+                .filter(|e| e.ty == 0 && q.ctx.map(|cx| e.ctx == ctx_name(cx)).unwrap_or(true) && q.wh.as_ref().map(|wh| wh.eval(&c.td, &e.vals, e.k) == Tri::True).unwrap_or(true))
                 .collect();
             if q.offset.is_some() && q.limit.is_none() {
                 if !r.is_error() {
@@ -374,7 +390,7 @@ pub fn run(ctx: &Ctx) -> i32 {
     for (i, f) in SORT_FIELDS.iter().enumerate() {
         order_by[i] = ctx.open(&format!("order.by_{}", f));
     }
-    let ex = Excl { order_by, offset: ctx.open("order.offset"), limit_with_order: ctx.open("order.limit_with_order"), mixed_tiers: ctx.open("order.memory_and_segments"), where_not_returned: ctx.open("order.where_field_not_returned"), no_restart: ctx.open_any("crash.after_manual_flush_or_clean_restart") || ctx.open_any("crash.store_after_compaction_and_restart"), ordered_offset: ctx.open("order.offset_with_order_and_limit") };
+    let ex = Excl { order_by, offset: ctx.open("order.offset"), limit_with_order: ctx.open("order.limit_with_order"), mixed_tiers: ctx.open("order.memory_and_segments"), where_not_returned: ctx.open("order.where_field_not_returned"), no_restart: ctx.open_any("crash.after_manual_flush_or_clean_restart") || ctx.open_any("crash.store_after_compaction_and_restart"), ordered_offset: ctx.open("order.offset_with_order_and_limit"), no_multi_type_compaction: ctx.open_any("compaction.partial_drain") };
     *EXCL.lock().unwrap() = Some(ex);
     crate::props::c02::KNOWN_ID_REUSE.store(ctx.open_any("layout.stale_cache_after_id_reuse"), std::sync::atomic::Ordering::Relaxed);
     let wx = crate::props::c02::WhereExcl::from_ctx_any(ctx);
